@@ -68,6 +68,15 @@ def _res(pp, f):
 
 def oracle_job(job):
     pp = common.import_pyparsing()
+    if job.get("default_ws") is not None:
+        pp.Empty().parse_string("", parse_all=True)  # a parse_all call under the standard defaults comes first
+        with pp.testing.reset_pyparsing_context():
+            pp.ParserElement.set_default_whitespace_chars(job["default_ws"])
+            return _oracle_job(pp, job)
+    return _oracle_job(pp, job)
+
+
+def _oracle_job(pp, job):
 
     def fresh():
         return gram.prepare(gram.build(pp, job["prog"]), job["root"])
@@ -217,9 +226,17 @@ def run(ctx):
         rng = random.Random(f"C08-{ctx.seed}-corr-ign-{i}")
         prog, root, inputs = gen.gen_case(rng, gen.Cfg(ignore=1.0), 5)
         jobs.append(dict(prog=prog, root=root, inputs=[s + rng.choice(["", " #", "#"]) for s in inputs], entries=ENTRIES, modes=[("none",)]))
+    # entry points under a changed default whitespace set (grammar built after the change; a parse_all call was made
+    # before it): parse_all's end-of-text test must use the defaults in force now, like a user-written `+ StringEnd()`
+    for i in range(ctx.budget(400, 3000)):
+        rng = random.Random(f"C08-{ctx.seed}-corr-ws-{i}")
+        prog, root, inputs = gen.gen_case(rng, gen.Cfg(ignore=0.0, ws_variants=0.0), 4)
+        jobs.append(dict(prog=prog, root=root, inputs=[s + rng.choice(["\n", " \n", "", "\t"]) for s in inputs],
+                         entries=ENTRIES[:4], modes=[("none",)], default_ws=rng.choice([" \t", " ", " \t\r"])))
     corr_parse.run_jobs(ctx, "model-vs-real:entry-points", jobs)
     mult = 5 if (ctx.broken and not ctx.fail_inputs) else 1
-    oj = [dict(prog=j["prog"], root=j["root"], inputs=j["inputs"]) for j in jobs[: ctx.budget(1500, 12000) * mult]]
+    oj = [dict(prog=j["prog"], root=j["root"], inputs=j["inputs"], default_ws=j.get("default_ws"))
+          for j in (jobs[: ctx.budget(1500, 12000) * mult] + [j for j in jobs if j.get("default_ws")])]
     run_oracle(ctx, "oracle:cross-entry", oj)
 
 
